@@ -10,21 +10,34 @@ ErrorNotFound (bstree.go:138).  The matcher is true only for a case
     Deletes performed so far.
 
 Any other departure from the ordered-map behaviour (a wrong Get, Delete result
-or traversal, a Size off by any other amount) does not match and is reported as
-a VIOLATION.  Wire format: coq/theories/C04_Wire.v."""
+or traversal, a Size off by any other amount, a Size that is right where the
+defect would make it wrong) does not match and is reported as a VIOLATION.
+Wire format: coq/theories/C04_Wire.v (comparator modes 0 ascending, 2/3
+ascending/descending over the "extreme" keys ext_key(k), anything else
+descending; the observation carries wire keys in every mode)."""
+
+
+def _ext_key(k):
+    """mirror of C04_Wire.ext_key / harness c04Ext"""
+    if not (0 <= k < 5000):
+        return k
+    r = k % 1000
+    return [r - 500, 2**63 - 1 - 999 + r, -2**63 + r, 2**62 - 500 + r, -2**62 - 500 + r][k // 1000]
 
 
 def _c04_expected(inp):
     """(spec observation, observation with the defect, number of failed deletes)"""
     if not inp or (len(inp) - 1) % 3 != 0:
         return None
-    desc = inp[0] != 0
+    mode = inp[0]
+    desc = mode not in (0, 2)
+    order = _ext_key if mode in (2, 3) else (lambda k: k)
     m = {}
     fails = 0
     spec, dfct = [], []
 
     def trav():
-        ks = sorted(m, reverse=desc)
+        ks = sorted(m, key=order, reverse=desc)
         out = [len(ks)]
         for k in ks:
             out += [k, m[k]]
